@@ -2,7 +2,9 @@ package vm
 
 import (
 	"crypto/ed25519"
+	"crypto/sha512"
 	"encoding/hex"
+	"math/big"
 
 	"bsim/ref"
 )
@@ -226,6 +228,47 @@ func (m *VM) applyMut(data, donor []byte, mu Mut) ([]byte, bool) {
 				env.NextSecret, env.FinalSignature = nxt.Seed(), nil
 			}
 		}
+	case "forge_small_order":
+		// A brand-new single-block token that needs no private key at all: it verifies under the
+		// all-zero 32 bytes read as a public key (a curve point of order 4) with S = 0 and R one of
+		// the four multiples of that point. No honest verifier holds such a key; a verifier that
+		// answers "no key available" with a zeroed key buffer instead of an error accepts it.
+		if atk == nil {
+			return nil, false
+		}
+		blk := all[0].Block
+		if mu.Data != "" {
+			blk, _ = hex.DecodeString(mu.Data)
+		}
+		zero := make([]byte, 32)
+		var sb *ref.WSignedBlock
+		var nxt ed25519.PrivateKey
+		for salt := 0; salt < 64 && sb == nil; salt++ {
+			nxt = ed25519.NewKeyFromSeed(seedFrom(atk.Priv.Seed(), byte(salt)))
+			c := &ref.WSignedBlock{Block: blk, Alg: 0, Key: nxt.Public().(ed25519.PublicKey)}
+			payload := ref.SignedPayload(c)
+			for ci := range smallOrderR {
+				h := sha512.New()
+				h.Write(smallOrderR[ci])
+				h.Write(zero)
+				h.Write(payload)
+				if kModL(h.Sum(nil))%4 != ci {
+					continue
+				}
+				sig := append(append([]byte{}, smallOrderR[ci]...), zero...)
+				if ed25519.Verify(ed25519.PublicKey(zero), payload, sig) {
+					c.Signature = sig
+					sb = c
+					break
+				}
+			}
+		}
+		if sb == nil {
+			return nil, false
+		}
+		env.RootKeyID = nil
+		setAll([]*ref.WSignedBlock{sb})
+		env.HasProof, env.NextSecret, env.FinalSignature = true, nxt.Seed(), nil
 	case "append_captured":
 		// legitimate: the adversary saw an unsealed token and appends with its next secret
 		if len(env.NextSecret) != 32 {
@@ -435,6 +478,36 @@ func (m *VM) applyMut(data, donor []byte, mu Mut) ([]byte, bool) {
 		return nil, false
 	}
 	return env.Encode(), true
+}
+
+// smallOrderR[i] is the encoding of -[i]A for A = the point encoded by 32 zero bytes (order 4):
+// the identity, -A, 2A (= the point of order 2), A.
+var smallOrderR = [4][]byte{
+	append([]byte{1}, make([]byte, 31)...),
+	append(make([]byte, 31), 0x80),
+	append(append([]byte{0xec}, bytesOf(0xff, 30)...), 0x7f),
+	make([]byte, 32),
+}
+
+func bytesOf(b byte, n int) []byte {
+	out := make([]byte, n)
+	for i := range out {
+		out[i] = b
+	}
+	return out
+}
+
+var ed25519L, _ = new(big.Int).SetString("7237005577332262213973186563042994240857116359379907606001950938285454250989", 10)
+
+// kModL reduces a 64-byte little-endian hash modulo the group order and returns it modulo 4.
+func kModL(h []byte) int {
+	be := make([]byte, len(h))
+	for i := range h {
+		be[len(h)-1-i] = h[i]
+	}
+	k := new(big.Int).SetBytes(be)
+	k.Mod(k, ed25519L)
+	return int(new(big.Int).Mod(k, big.NewInt(4)).Int64())
 }
 
 func seedFrom(base []byte, salt byte) []byte {
